@@ -20,6 +20,9 @@ pub struct GenProfile {
     pub big_payload_pct: u32,
     /// bursts of consecutive AddSnapshots
     pub snapshot_bursts: bool,
+    /// percent chance that a client's chain starts from another client's version (and that
+    /// snapshot / child-version arguments point into the other client's chain)
+    pub entangle_pct: u32,
 }
 
 impl Default for GenProfile {
@@ -35,6 +38,7 @@ impl Default for GenProfile {
             aligned: false,
             big_payload_pct: 4,
             snapshot_bursts: true,
+            entangle_pct: 0,
         }
     }
 }
@@ -119,7 +123,14 @@ pub fn generate(seed: u64, prof: &GenProfile) -> History {
         let kind = match k {
             0 | 4 => {
                 // AddVersion / Probe
-                let parent = if b.len == 0 {
+                let parent = if b.len == 0 && n_clients > 1 && rng.pct(prof.entangle_pct) {
+                    let o = other(&mut rng);
+                    match rng.below(4) {
+                        0 => IdRef::SnapVid(o),
+                        1 => IdRef::Latest(o),
+                        _ => IdRef::Back(o, 1 + rng.usize(3)),
+                    }
+                } else if b.len == 0 {
                     if prof.aligned || !rng.pct(prof.nonnil_base_pct) {
                         IdRef::Nil
                     } else if rng.pct(70) {
@@ -166,7 +177,9 @@ pub fn generate(seed: u64, prof: &GenProfile) -> History {
                 }
             }
             1 => {
-                let parent = match rng.weighted(&[20, 35, 10, 10, 10, 15]) {
+                let parent = if rng.pct(prof.entangle_pct / 3) {
+                    IdRef::BeforeBase(c, 1 + rng.usize(3))
+                } else { match rng.weighted(&[20, 35, 10, 10, 10, 15]) {
                     0 => IdRef::Latest(c),
                     1 => IdRef::Nth(c, rng.usize(b.len.max(1))),
                     2 => IdRef::Base(c),
@@ -180,11 +193,20 @@ pub fn generate(seed: u64, prof: &GenProfile) -> History {
                             IdRef::Nth(o, rng.usize(6))
                         }
                     }
-                };
+                } };
                 OpKind::GetChild { parent }
             }
             2 => {
-                let vid = match rng.weighted(&[68, 5, 8, 6, 8, 5]) {
+                let vid = if n_clients > 1 && rng.pct(prof.entangle_pct / 2) {
+                    let o = other(&mut rng);
+                    match rng.below(6) {
+                        0 => IdRef::Base(c),
+                        1 => IdRef::SnapVid(o),
+                        2 | 3 => IdRef::BeforeBase(c, 1 + rng.usize(3)),
+                        _ => IdRef::Back(o, 1 + rng.usize(5)),
+                    }
+                } else {
+                  match rng.weighted(&[68, 5, 8, 6, 8, 5]) {
                     0 => {
                         // positions counted back from the latest; emphasise the window boundary
                         let kk = match rng.weighted(&[20, 12, 12, 14, 16, 16, 6, 4]) {
@@ -204,6 +226,7 @@ pub fn generate(seed: u64, prof: &GenProfile) -> History {
                         }
                     }
                     _ => IdRef::SnapVid(c),
+                  }
                 };
                 if prof.snapshot_bursts && burst_left == 0 && rng.pct(25) {
                     burst_left = 1 + rng.usize(5);
